@@ -653,12 +653,14 @@ Section Render.
     end.
 End Render.
 
-(* a macro body runs in a copy of the context: fresh variables, counters and macro table, include and block disabled;
-   calls nested deeper than [lv] levels render nothing (the check never reaches that depth) *)
+(* a macro body runs in a copy of the context: fresh variables and counters, include and block disabled; its macro table is a
+   copy of the caller's (fix bfab21e; before: empty), which holds the macro being called, so a macro can call itself.  The copy is
+   refused with ContextDepthError once the caller is deeper than context_depth_limit (30): bodies run at depths 1..31. *)
+Definition rst_call (b : block) : rst := {| cap := []; ctr := 0; dctr := 0; last := []; mac := Some b |}.
 Fixpoint call_at (inh_bad : bool) (lv : nat) (b : block) : str * outcome :=
   match lv with
-  | O => ([], Done)
-  | S lv' => let '(t, _, o) := rblock (call_at inh_bad lv') inh_bad true b rst0 in (t, o)
+  | O => ([], Raised EContextDepth)
+  | S lv' => let '(t, _, o) := rblock (call_at inh_bad lv') inh_bad true b (rst_call b) in (t, o)
   end.
 
 (* extends and block nodes anywhere in the tree (the inheritance machinery walks all children) *)
@@ -685,7 +687,7 @@ with cnt_cases (c : cblocks) : nat * nat :=
   end.
 
 Definition inheritance_bad (b : block) : bool := Nat.ltb 1 (fst (cnt_block b)) || Nat.ltb 1 (snd (cnt_block b)).
-Definition call_depth : nat := 8.
+Definition call_depth : nat := 31.
 
 (* BoundTemplate.render_with_context for a top-level template: out is the buffer *)
 Section Top.
